@@ -51,6 +51,8 @@ pub struct Env {
     pub beh: Arc<Mutex<Beh>>,
     pub accepts: Arc<AtomicU64>,
     pub peer_eofs: Arc<AtomicU64>,
+    /// connections the environment keeps reading from until the client closes them
+    pub kept: Arc<AtomicU64>,
     pub acceptor: Option<tokio::task::JoinHandle<()>>,
 }
 
@@ -61,6 +63,7 @@ impl Env {
             beh: Arc::new(Mutex::new(Beh::Refused)),
             accepts: Arc::new(AtomicU64::new(0)),
             peer_eofs: Arc::new(AtomicU64::new(0)),
+            kept: Arc::new(AtomicU64::new(0)),
             acceptor: None,
         }
     }
@@ -93,11 +96,15 @@ impl Env {
             let beh = self.beh.clone();
             let accepts = self.accepts.clone();
             let eofs = self.peer_eofs.clone();
+            let kept = self.kept.clone();
             self.acceptor = Some(tokio::spawn(async move {
                 loop {
                     let Ok((mut s, _)) = l.accept().await else { return };
                     accepts.fetch_add(1, Ordering::SeqCst);
                     let b = *beh.lock().unwrap();
+                    if matches!(b, Beh::AcceptGarbage | Beh::AcceptSilent | Beh::Serve) {
+                        kept.fetch_add(1, Ordering::SeqCst);
+                    }
                     let eofs = eofs.clone();
                     tokio::spawn(async move {
                         match b {
@@ -310,6 +317,19 @@ async fn run_script(seed: u64, n: u64) -> (Evidence, Vec<(String, String)>, Vec<
                         // effect reach the acceptor before taking the snapshot
                         tokio::time::sleep(Duration::from_millis(40)).await;
                         accepts_at_disabled = Some(env.accepts.load(Ordering::SeqCst));
+                        // "Disabled after a disable, which also closes an open connection": every
+                        // connection the environment still holds must have been closed by the client
+                        let t0 = Instant::now();
+                        while env.kept.load(Ordering::SeqCst) != env.peer_eofs.load(Ordering::SeqCst) && t0.elapsed() < Duration::from_secs(2) {
+                            tokio::time::sleep(Duration::from_millis(5)).await;
+                        }
+                        ev.count("disabled_notifications_with_connection_check", 1);
+                        if env.kept.load(Ordering::SeqCst) != env.peer_eofs.load(Ordering::SeqCst) {
+                            problems.push((
+                                format!("connection_open_while_disabled:after_{}", prev.as_ref().map(state_name).unwrap_or("start")),
+                                format!("the channel reports Disabled but {} connection(s) to the peer are still open 2 s later", env.kept.load(Ordering::SeqCst) - env.peer_eofs.load(Ordering::SeqCst)),
+                            ));
+                        }
                     }
                     ClientState::Connecting => {
                         // The latest Disabled notification was caused by the d-th disable sent or a
@@ -693,6 +713,15 @@ pub fn run(args: &Args) -> i32 {
                     ev.violation(sig, what, json!({"leg": "serial", "scenario": scenario, "k": k}));
                 }
             }
+        }
+    }
+    // serial settings the driver accepts although they make no sense
+    {
+        let mut e = Evidence::new();
+        let problems = rt.block_on(crate::serial::serial_odd_settings(&mut e));
+        ev.merge(e);
+        for (sig, what) in problems {
+            ev.violation(sig, what, json!({"leg": "serial_odd_settings"}));
         }
     }
     // TLS client whose handshake never completes
